@@ -40,18 +40,12 @@ class Notifications(object):
     async def _maybe_notify(self):
         tmp, tbp = self._touched_mp, self._touched_bp
         highest = self._highest_block
-        if highest >= 0:
-            # Sets still pending above the current block height were orphaned by a reorg;
-            # they belong to the current height now
-            for pending in (tmp, tbp):
-                for orphaned in [h for h in pending if h > highest]:
-                    tbp.setdefault(highest, set()).update(pending.pop(orphaned))
         common = set(tmp).intersection(tbp)
         if common:
             height = max(common)
         elif tmp and max(tmp) == highest:
             height = highest
-        elif tbp.get(highest) and self._mempool_height == highest:
+        elif highest in tbp and self._mempool_height == highest:
             # Nothing new from the mempool, which has already been refreshed at this height
             height = highest
         else:
@@ -82,7 +76,14 @@ class Notifications(object):
         await self._maybe_notify()
 
     async def on_block(self, touched, height):
-        self._touched_bp.setdefault(height, set()).update(touched)
+        tbp = self._touched_bp
+        # Sets still pending above this height were orphaned by a reorg; they belong to
+        # this height now.  (A mempool set above the last block height is not orphaned, the
+        # mempool is just ahead of the block report, so this is only done here.)
+        for pending in (self._touched_mp, tbp):
+            for orphaned in [h for h in pending if h > height]:
+                tbp.setdefault(height, set()).update(pending.pop(orphaned))
+        tbp.setdefault(height, set()).update(touched)
         self._highest_block = height
         await self._maybe_notify()
 
